@@ -661,3 +661,59 @@ def job_fast_path(args):
         res.update(status="error", detail="%s: %s" % (type(e).__name__, e), tb=traceback.format_exc()[-1500:])
     res["wall_s"] = time.time() - t0
     return res
+
+
+def job_bell_early(args):
+    """bellerophon::<F> early outs with the decimal exponent SYMBOLIC (compact MIR): every exponent below the table range
+    gives (0, 0), every exponent above it +infinity, a zero significand gives (0, 0) for every exponent; no panic leaf
+    (on the debug-assertion MIR: no arithmetic-overflow assert) is reachable for any i32 exponent."""
+    (mirpath, fmt, timeout) = args
+    t0 = time.time()
+    res = {"job": "bell_early", "fmt": fmt}
+    try:
+        T.reset()
+        ex = Executor(get_mir(mirpath), fmt)
+        if mul_summary_valid(mirpath):
+            T.reset()
+            ex = Executor(get_mir(mirpath), fmt)
+            ex.stubs["bellerophon::mul"] = _mul_stub
+            ex.stubs["mul"] = _mul_stub
+        F = specs.FORMATS[fmt]
+        bads = []
+        w = T.var("w", 1, (1 << 64) - 2)
+        many = T.boolvar("many")
+        for (qlo, qhi, want_exp) in ((-(1 << 31), -351, 0), (310, (1 << 31) - 1, F["inf"])):
+            q = T.var("q", qlo, qhi)
+            num = VTuple([VInt(q, 32, True), _u64(w), VBool(many)], "Number")
+            for lf in ex.call("bellerophon", [Boxed(num)]):
+                B = lf.B
+                if lf.kind != "return":
+                    bads.append(lf.pc_term())
+                    continue
+                mant, exp = lf.value.items[0].t, lf.value.items[1].t
+                bads.append(lf.guarded(B.bnot(B.band_bool(B.eq(mant, T.const(0)), B.eq(exp, T.const(want_exp))))))
+        q3 = T.var("q", -(1 << 31), (1 << 31) - 1)
+        num = VTuple([VInt(q3, 32, True), _u64(T.const(0)), VBool(many)], "Number")
+        for lf in ex.call("bellerophon", [Boxed(num)]):
+            B = lf.B
+            if lf.kind != "return":
+                bads.append(lf.pc_term())
+                continue
+            mant, exp = lf.value.items[0].t, lf.value.items[1].t
+            bads.append(lf.guarded(B.bnot(B.band_bool(B.eq(mant, T.const(0)), B.eq(exp, T.const(0))))))
+        # ground facts that make these early outs correct: (2^64-1)*10^-351 rounds to zero, 1*10^310 to infinity
+        B = T.Builder()
+        lhs, rhs = specs.scaled_cmp_sides(B, T.const((1 << 64) - 1), -351, T.const(1), 1 - F["bias"] - 1)
+        zero_ok = B.le(lhs, rhs)
+        lhs, rhs = specs.scaled_cmp_sides(B, T.const(1), 310, T.const((1 << (F["p1"] + 2)) - 1), F["inf"] - 2 - F["bias"])
+        if zero_ok is not T.TRUE or B.ge(lhs, rhs) is not T.TRUE:
+            res.update(status="error", detail="threshold facts for the Bellerophon table range do not hold")
+            return res
+        status, model, stats = decide(bads, timeout, order=BELL_ORDER)
+        res.update(status=status, stats=stats)
+        if model:
+            res["model"] = {k: model.get(k) for k in ("w", "q", "many")}
+    except Exception as e:
+        res.update(status="error", detail="%s: %s" % (type(e).__name__, e), tb=traceback.format_exc()[-1500:])
+    res["wall_s"] = time.time() - t0
+    return res
